@@ -141,6 +141,67 @@ def correspond(ctx):
 
 # ---------------------------------------------------------------- search (Python only)
 
+_OBJ = {}
+
+
+def _obj(t):
+    k = G.term_tok(t)
+    if k not in _OBJ:
+        _OBJ[k] = G.build(t)
+    return _OBJ[k]
+
+
+def _chosen(t, env, data, idx):
+    """the alternative of a OneOf that serializes data[idx] (first one that does not return None)"""
+    for a in t[1]:
+        if _obj(a).serialize(env, data, idx) is not None:
+            return a
+    return None
+
+
+def exact_ok(t, env, data, idx):
+    """Python twin of CombWf.exact: a MultiDigit group reached here is complete"""
+    if t[0] == "M":
+        return len(data) - idx >= t[2]
+    if t[0] == "O":
+        a = _chosen(t, env, data, idx)
+        return True if a is None else exact_ok(a, env, data, idx)
+    return True
+
+
+def shape_ok(t, env, data, idx):
+    """Python twin of the consumption conditions of CombWf.accepts (shapes themselves come from the generator)"""
+    k = t[0]
+    if k == "O":
+        a = _chosen(t, env, data, idx)
+        return True if a is None else shape_ok(a, env, data, idx)
+    if k == "T":
+        v = data[idx]
+        for x, lst in zip(t[1], v):
+            r = _obj(x).serialize(env, lst, 0)
+            if r is None or r[0] != len(lst) or not exact_ok(x, env, lst, 0) or not shape_ok(x, env, lst, 0):
+                return False
+        return True
+    if k in ("Q", "G", "V"):
+        v = data[idx]
+        if k == "Q":
+            d = v
+        elif k == "G":
+            d = [x for row in v for x in row]
+        else:
+            d = [val for _, val in sorted(zip(v[0], v[1]), key=lambda rv: min(rv[0]))]
+        p = 0
+        while p < len(d):
+            if not shape_ok(t[1], env, d, p):
+                return False
+            r = _obj(t[1]).serialize(env, d, p)
+            if r is None or r[0] <= 0:
+                return False
+            p += r[0]
+        return True
+    return True
+
+
 def _viol(ctx, cls, key, what, detail):
     seen = ctx.__dict__.setdefault("_c15_cls", {})
     seen[cls] = seen.get(cls, 0) + 1
@@ -164,6 +225,11 @@ def roundtrip_one(ctx, t, c, h, w, items, kind, must_accept=False):
                    "decoded": repr(r), "expected": "a string"})
         return
     s = r[1][1]
+    from cspuz.problem_serializer import CombinatorEnv
+    ok_shape = vlib.guarded(lambda: exact_ok(t, CombinatorEnv(h, w), items, 0) and shape_ok(t, CombinatorEnv(h, w), items, 0))
+    if ok_shape != ("ok", True):
+        ctx.count("search:padded-group-or-partial-consumption-skipped")
+        return
     if len(items) == 1:
         r2 = vlib.guarded(lambda: serialize_problem(c, items[0], height=h, width=w))
         if r2 != ("ok", s):
@@ -197,6 +263,84 @@ def roundtrip_one(ctx, t, c, h, w, items, kind, must_accept=False):
             return
 
 
+PROBES = [-4097, -36, -2, -1, 0, 1, 9, 10, 15, 16, 35, 36, 255, 256, 4095, 4096, 10 ** 20, "", "0", "..", "?", None, (), [],
+          (0, 1), [0]]
+
+
+def leaf_probes(ctx, terms):
+    """whatever a leaf combinator accepts must come back: no shape leniency is involved for single items"""
+    leaves = []
+
+    def walk(t):
+        if t[0] in ("F", "D", "S", "I", "H", "P", "M"):
+            if t not in leaves:
+                leaves.append(t)
+        elif t[0] in ("O", "T"):
+            for x in t[1]:
+                walk(x)
+        elif t[0] in ("Q", "G", "V"):
+            walk(t[1])
+    for t in list(terms) + [("I",), ("H",), ("M", 2, 5), ("M", 3, 3), ("P", -1, 4, 2), ("S", 0, "g"), ("S", -1, "0")]:
+        walk(t)
+    for t in leaves:
+        if not G.wf(t):
+            continue
+        c = G.build(t)
+        trep = G.term_repr(t)
+        pool = PROBES + ([t[1]] if t[0] in ("S", "P") else []) + (list(t[1]) if t[0] == "D" else [])
+        for v in pool:
+            for follow in ([], [v], [v, v, 0]):
+                data = [v] + follow
+                r = vlib.guarded(lambda: c.serialize(vlib_env(), data, 0))
+                if r[0] != "ok" or r[1] is None:
+                    continue
+                k, s = r[1]
+                ctx.prop_case("leaf-probe", (trep, repr(data)))
+                d = vlib.guarded(lambda: c.deserialize(vlib_env(), s + "/", 0)) if G.follow_ok(t, "/") else \
+                    vlib.guarded(lambda: c.deserialize(vlib_env(), s, 0))
+                ok = d[0] == "ok" and d[1] is not None and d[1][0] == len(s) and d[1][1][:k] == data[:k] and \
+                    all(type(a) is type(b) for a, b in zip(d[1][1][:k], data[:k])) and \
+                    (len(d[1][1]) == k or (t[0] == "M" and len(data) < t[2]))
+                if not ok:
+                    _viol(ctx, ("leaf-probe", trep), key_of("leaf-probe", trep, repr(data)),
+                          "a leaf combinator serialized a value that does not come back",
+                          {"term": trep, "term_tok": G.term_tok(t), "h": 1, "w": 1, "items": repr(data[:k]), "text": s,
+                           "decoded": repr(d), "expected": repr((len(s), data[:k]))})
+
+
+def vlib_env():
+    from cspuz.problem_serializer import CombinatorEnv
+    return CombinatorEnv(1, 1)
+
+
+def url_roundtrip(ctx, terms, built):
+    """serialize_problem_as_url then deserialize_problem_as_url gives back (height, width, value)"""
+    from cspuz.problem_serializer import serialize_problem_as_url, deserialize_problem_as_url
+    rng = ctx.rng
+    for (t, h, w, items) in gen_valid_cases(ctx, terms[:60], 4):
+        if len(items) != 1 or G.has_rooms(t) or items[0] is None:   # a problem that is None is indistinguishable from failure
+            continue
+        k = G.term_tok(t)
+        if k not in built:
+            built[k] = G.build(t)
+        c = built[k]
+        r = impl_ser(c, h, w, items, 0)
+        if r[0] != "ok" or r[1] is None or r[1][0] != 1 or "\n" in r[1][1]:
+            continue
+        from cspuz.problem_serializer import CombinatorEnv
+        if vlib.guarded(lambda: exact_ok(t, CombinatorEnv(h, w), items, 0) and shape_ok(t, CombinatorEnv(h, w), items, 0)) != ("ok", True):
+            continue
+        name = rng.choice(["nurikabe", "x", "a.b"])
+        u = vlib.guarded(lambda: serialize_problem_as_url(c, name, h, w, items[0]))
+        ctx.prop_case("url-roundtrip", (G.term_repr(t), h, w, repr(items)))
+        d = vlib.guarded(lambda: deserialize_problem_as_url(c, u[1], allowed_puzzles=name, return_size=True)) if u[0] == "ok" else u
+        if d != ("ok", (h, w, items[0])):
+            _viol(ctx, ("url", G.term_repr(t)), key_of("url-roundtrip", G.term_repr(t), "%dx%d" % (h, w), repr(items)),
+                  "deserialize_problem_as_url(serialize_problem_as_url(v)) != (height, width, v)",
+                  {"term": G.term_repr(t), "term_tok": k, "h": h, "w": w, "items": repr(items), "text": repr(u),
+                   "decoded": repr(d), "expected": repr((h, w, items[0]))})
+
+
 def search(ctx):
     m = getattr(ctx, "_c15_model", None)
     n_terms = 400 if ctx.thorough else 120
@@ -215,6 +359,8 @@ def search(ctx):
         if k not in built:
             built[k] = G.build(t)
         roundtrip_one(ctx, t, built[k], h, w, items, "roundtrip", must_accept=t in G.CURATED)
+    leaf_probes(ctx, terms)
+    url_roundtrip(ctx, wf_terms, built)
     # room partitions
     plain = [("R", False, False), ("R", True, False), ("R", False, True)]
     valued = [("V", ("O", [("H",), ("S", -1, "g")]), True, False), ("V", ("T", [("I",), ("F", "/")]), False, False)]
